@@ -17,6 +17,9 @@
 //!   TCP      complete · reset · backend refusal
 //!   silence  TLS handshake never started · H2 request stalled mid-body · idle TLS keep-alive · idle TCP
 //!            relay: each reclaimed by 2 s timeouts
+//!   backend  never answers the SYN (listening socket, backlog 0, accept queue full): client reset while
+//!            connecting (HTTP and TCP), session ended by the timeouts · cluster with no backend at all
+//!            (HTTP 503, TCP close)
 //!   limits   a storm above `max_connections` · the per-(cluster, ip) limit
 //!            raised / lowered / disabled at run time (`SetMaxConnectionsPerIp`)
 //!            · optional eviction on queue full
@@ -201,7 +204,7 @@ fn gauges(ch: &mut Main, n: &mut u32) -> Option<Vec<(String, u64)>> {
             out.push((name.to_string(), v));
         }
     }
-    if let Some(m) = query(ch, n, vec!["good".into(), "dead".into()]) {
+    if let Some(m) = query(ch, n, vec!["good".into(), "dead".into(), "hang".into(), "empty".into()]) {
         for (cid, cm) in &m.clusters {
             for (name, f) in &cm.cluster {
                 if name.contains("connections") || name.contains("active_requests") {
@@ -448,7 +451,7 @@ fn backends_snapshot(ch: &mut Main, n: &mut u32) -> Vec<sozu_lib::backends::Veri
 /// closes, which hides the leak: so the most recently freed tokens are first taken by silent connections
 /// that resolve no cluster, then a probe that gets a token of its own must be served with the limit at 1.
 /// -> Some(false): a slot is still held.  The limit is put back to `restore`.
-fn slot_probe(ch: &mut Main, id: &str, maxc: u64, front: &SocketAddr, restore: u64) -> Option<bool> {
+fn slot_probe(ch: &mut Main, id: &str, maxc: u64, front: &SocketAddr, restore: u64, host: &str) -> Option<bool> {
     if maxc < 2 {
         return None;
     }
@@ -459,20 +462,28 @@ fn slot_probe(ch: &mut Main, id: &str, maxc: u64, front: &SocketAddr, restore: u
     let blockers = std::cmp::min(maxc - 1, 4);
     let held: Vec<TcpStream> = (0..blockers).filter_map(|_| tcp(front)).collect();
     std::thread::sleep(Duration::from_millis(40));
+    // any answer but 429 (200, 503 when the cluster has no usable backend) means the slot was granted; a
+    // cluster whose backend never answers the SYN gives no answer at all within the wait: granted too
+    let slow = host == "hang.test";
     let mut verdict = None;
-    for _attempt in 0..6 {
+    for _attempt in 0..(if slow { 1 } else { 6 }) {
         if let Some(mut c) = tcp(front) {
-            let _ = c.write_all(request("good.test", "/x", true).as_bytes());
-            match read_response(&mut c, Duration::from_secs(2)) {
-                Some(l) if l.contains(" 200") => {
-                    verdict = Some(true);
-                    break;
-                }
+            let _ = c.write_all(request(host, "/x", true).as_bytes());
+            match read_response(&mut c, if slow { Duration::from_millis(500) } else { Duration::from_secs(2) }) {
                 Some(l) if l.contains(" 429") => {
                     verdict = Some(false);
                     break;
                 }
-                _ => {}
+                Some(_) => {
+                    verdict = Some(true);
+                    break;
+                }
+                None if slow => {
+                    verdict = Some(true);
+                    reset(c);
+                    break;
+                }
+                None => {}
             }
         }
         std::thread::sleep(Duration::from_millis(200));
@@ -511,6 +522,27 @@ fn main() {
     let back: SocketAddr = back_listener.local_addr().unwrap();
     let dead: SocketAddr = format!("127.0.0.1:{}", free_port()).parse().unwrap(); // nobody listens
     std::thread::spawn(move || backend(back_listener));
+    // a backend that never answers the SYN: a listening socket with backlog 0 whose accept queue is
+    // kept full by one connection nobody accepts; further SYNs are dropped by the kernel
+    let (hang, _hang_keep) = unsafe {
+        let fd = libc::socket(libc::AF_INET, libc::SOCK_STREAM, 0);
+        let one: libc::c_int = 1;
+        libc::setsockopt(fd, libc::SOL_SOCKET, libc::SO_REUSEADDR, &one as *const _ as *const libc::c_void, 4);
+        let mut sa: libc::sockaddr_in = std::mem::zeroed();
+        sa.sin_family = libc::AF_INET as u16;
+        sa.sin_port = 0;
+        sa.sin_addr.s_addr = u32::from_be_bytes([127, 0, 0, 1]).to_be();
+        libc::bind(fd, &sa as *const _ as *const libc::sockaddr, std::mem::size_of::<libc::sockaddr_in>() as u32);
+        libc::listen(fd, 0);
+        let mut len = std::mem::size_of::<libc::sockaddr_in>() as u32;
+        libc::getsockname(fd, &mut sa as *mut _ as *mut libc::sockaddr, &mut len);
+        let addr: SocketAddr = format!("127.0.0.1:{}", u16::from_be(sa.sin_port)).parse().unwrap();
+        // fill the accept queue (backlog 0 holds one established connection) and keep everything alive
+        let fillers: Vec<Option<TcpStream>> = (0..2).map(|_| TcpStream::connect_timeout(&addr, Duration::from_millis(300)).ok()).collect();
+        (addr, (fd, fillers))
+    };
+    let tcp_hang: SocketAddr = format!("127.0.0.1:{}", free_port()).parse().unwrap();
+    let tcp_empty: SocketAddr = format!("127.0.0.1:{}", free_port()).parse().unwrap();
 
     let config = ConfigBuilder::new(FileConfig::default(), "").into_config().expect("config");
     let mut sc = ServerConfig::from(&config);
@@ -595,6 +627,12 @@ fn main() {
         RequestType::ActivateListener(ActivateListener { address: fas.clone(), proxy: ListenerType::Https.into(), from_scm: false }),
         RequestType::AddCluster(Cluster { cluster_id: "good".into(), ..Default::default() }),
         RequestType::AddCluster(Cluster { cluster_id: "dead".into(), ..Default::default() }),
+        RequestType::AddCluster(Cluster { cluster_id: "hang".into(), ..Default::default() }),
+        RequestType::AddCluster(Cluster { cluster_id: "empty".into(), ..Default::default() }),
+        RequestType::AddHttpFrontend(front_of("hang", "hang.test", &fa)),
+        RequestType::AddHttpFrontend(front_of("hang", "hang.test", &fa2)),
+        RequestType::AddHttpFrontend(front_of("empty", "empty.test", &fa)),
+        backend_of("hang", hang),
         RequestType::AddHttpFrontend(front_of("good", "good.test", &fa)),
         RequestType::AddHttpFrontend(front_of("dead", "dead.test", &fa)),
         RequestType::AddHttpFrontend(front_of("good", "good.test", &fa2)),
@@ -604,20 +642,27 @@ fn main() {
             certificate: CertificateAndKey { certificate: cert.clone(), key: key.clone(), certificate_chain: vec![], versions: vec![], names: vec![] },
             expired_at: None,
         }),
-        RequestType::AddHttpsListener(lbs2.to_tls(None).unwrap()),
-        RequestType::ActivateListener(ActivateListener { address: fas2.clone(), proxy: ListenerType::Https.into(), from_scm: false }),
-        RequestType::AddHttpsFrontend(front_of("good", "localhost", &fas2)),
-        RequestType::AddCertificate(AddCertificate {
-            address: fas2.clone(),
-            certificate: CertificateAndKey { certificate: cert, key, certificate_chain: vec![], versions: vec![], names: vec![] },
-            expired_at: None,
-        }),
         backend_of("good", back),
         backend_of("dead", dead),
     ];
     setup.extend(tcp_listener(tcp_good, "good"));
     setup.extend(tcp_listener(tcp_dead, "dead"));
-    setup.extend(tcp_listener(tcp_good2, "good"));
+    // the accept gate closes at `10 + 2 * max_connections` slab entries, listeners included: the four
+    // extra listeners only exist when max_connections leaves room for them
+    let many_listeners = maxc >= 3;
+    if many_listeners {
+        setup.push(RequestType::AddHttpsListener(lbs2.to_tls(None).unwrap()));
+        setup.push(RequestType::ActivateListener(ActivateListener { address: fas2.clone(), proxy: ListenerType::Https.into(), from_scm: false }));
+        setup.push(RequestType::AddHttpsFrontend(front_of("good", "localhost", &fas2)));
+        setup.push(RequestType::AddCertificate(AddCertificate {
+            address: fas2.clone(),
+            certificate: CertificateAndKey { certificate: cert, key, certificate_chain: vec![], versions: vec![], names: vec![] },
+            expired_at: None,
+        }));
+        setup.extend(tcp_listener(tcp_good2, "good"));
+        setup.extend(tcp_listener(tcp_hang, "hang"));
+        setup.extend(tcp_listener(tcp_empty, "empty"));
+    }
     for (i, r) in setup.into_iter().enumerate() {
         match send(&mut main_ch, &format!("S-{i}"), r) {
             Some(resp) if resp.status == ResponseStatus::Ok as i32 => {}
@@ -643,8 +688,9 @@ fn main() {
     let mut went_ok_last;
     // the tightest limit that was in force ever since some still-open connection was admitted: the
     // storm only holds connections it opened itself after the last change, so `limit` is it
-    const NKINDS: u64 = 27;
+    const NKINDS: u64 = 32;
     let mut counts = [0usize; NKINDS as usize];
+    let t_start = Instant::now();
     // how many times the outcome went as scripted (e.g. the response did arrive): coverage, not an oracle
     let mut went = [0usize; NKINDS as usize];
     // debugging aid: C16BB_ONLY=7,19 cycles through the given outcomes only
@@ -662,8 +708,14 @@ fn main() {
         if let Some(k) = only.as_ref() {
             kind = k[round % k.len()];
         }
+        if !many_listeners && matches!(kind, 23 | 24 | 25 | 26 | 29 | 30) {
+            kind %= 23;
+        }
         counts[kind] += 1;
         went_ok_last = false;
+        if std::env::var("C16BB_TRACE").is_ok() {
+            println!("note round {round} outcome {kind} at {} ms", t_start.elapsed().as_millis());
+        }
         match kind {
             0 => {
                 if let Some(mut c) = tcp(&front) {
@@ -704,7 +756,11 @@ fn main() {
             4 => {
                 if let Some(mut c) = tcp(&front) {
                     let _ = c.write_all(request("dead.test", "/x", false).as_bytes());
-                    let _ = read_response(&mut c, Duration::from_secs(8));
+                    // 503: the connect was attempted and refused (a 429 would mean it never was)
+                    went_ok_last = read_response(&mut c, Duration::from_secs(8)).is_some_and(|l| l.contains(" 503"));
+                    if went_ok_last {
+                        went[kind] += 1;
+                    }
                 }
             }
             5 => {
@@ -929,6 +985,57 @@ fn main() {
                     }
                 }
             }
+            27 => {
+                // the client resets while the backend connection is still being established (unanswered SYN)
+                if let Some(mut c) = tcp(&front) {
+                    let _ = c.write_all(request("hang.test", "/x", false).as_bytes());
+                    std::thread::sleep(Duration::from_millis(120));
+                    if rng.next() % 2 == 0 {
+                        reset(c);
+                    }
+                    went[kind] += 1;
+                }
+            }
+            28 => {
+                // the front timeout / the connect retries end a session whose backend never answers
+                if let Some(mut c) = tcp(&front2) {
+                    let _ = c.write_all(request("hang.test", "/x", false).as_bytes());
+                    if wait_closed(&mut c, Duration::from_secs(40)) {
+                        went[kind] += 1;
+                    } else {
+                        println!("viol not-reclaimed a session whose backend never answers was still open after 40 s (timeouts 1-2 s)");
+                    }
+                }
+            }
+            29 => {
+                // TCP relay: the client leaves while the backend connection is still being established
+                if let Some(mut c) = tcp(&tcp_hang) {
+                    let _ = c.write_all(b"hello");
+                    std::thread::sleep(Duration::from_millis(120));
+                    if rng.next() % 2 == 0 {
+                        reset(c);
+                    }
+                    went[kind] += 1;
+                }
+            }
+            30 => {
+                // TCP relay towards a cluster that has no backend at all: closed at once
+                if let Some(mut c) = tcp(&tcp_empty) {
+                    let _ = c.write_all(b"hello");
+                    if wait_closed(&mut c, Duration::from_secs(8)) {
+                        went[kind] += 1;
+                    }
+                }
+            }
+            31 => {
+                // HTTP towards a cluster that has no backend at all: 503
+                if let Some(mut c) = tcp(&front) {
+                    let _ = c.write_all(request("empty.test", "/x", false).as_bytes());
+                    if read_response(&mut c, Duration::from_secs(5)).is_some_and(|l| l.contains(" 503")) {
+                        went[kind] += 1;
+                    }
+                }
+            }
             21 => {
                 // a storm above max_connections: everybody asks, nobody leaves
                 let n = maxc as usize + 3;
@@ -972,7 +1079,7 @@ fn main() {
         if matches!(kind, 0 | 4 | 18) {
             let snap = backends_snapshot(&mut main_ch, &mut qn);
             if let Some(d) = snap.iter().find(|b| b.backend_id == "dead-0") {
-                if kind != 0 {
+                if kind == 18 || (kind == 4 && went_ok_last) {
                     refusals += 1;
                     if d.tries == 0 || d.failures == 0 {
                         println!("viol c12-refusal-not-recorded the backend refused a connection and its retry policy shows tries={} failures={}", d.tries, d.failures);
@@ -996,9 +1103,16 @@ fn main() {
         }
         // sessions of the HTTPS and TCP listeners and WebSocket sessions close through their own paths:
         // look for a slot they left behind before a later session recycles their token
-        if matches!(kind, 8 | 9 | 12 | 13 | 14 | 15 | 16 | 17 | 22 | 24 | 25 | 26) {
+        let probe_host = match kind {
+            8 | 9 | 12 | 13 | 14 | 15 | 16 | 17 | 22 | 24 | 25 | 26 => Some("good.test"),
+            4 | 18 => Some("dead.test"),
+            27 | 28 | 29 => Some("hang.test"),
+            30 | 31 => Some("empty.test"),
+            _ => None,
+        };
+        if let Some(host) = probe_host {
             std::thread::sleep(Duration::from_millis(60));
-            if slot_probe(&mut main_ch, &format!("P-{round}"), maxc, &front, limit) == Some(false) {
+            if slot_probe(&mut main_ch, &format!("P-{round}"), maxc, &front, limit, host) == Some(false) {
                 println!("viol slot-leak after outcome {kind}: nothing talks to the cluster, the per-(cluster, ip) limit is 1, silent connections hold the recycled tokens, and a fresh connection was refused 429: a slot of a closed session is still held");
             }
         }
@@ -1075,7 +1189,7 @@ fn main() {
         }
     }
     // the per-(cluster, ip) slots are all free (before any other connection recycles a token)
-    if slot_probe(&mut main_ch, "P-final", maxc, &front, 1) == Some(false) {
+    if slot_probe(&mut main_ch, "P-final", maxc, &front, 1, "good.test") == Some(false) {
         println!("viol slot-leak nothing talks to the cluster, the per-(cluster, ip) limit is 1, silent connections hold the recycled tokens, and a fresh connection was refused 429: a slot of a closed session is still held");
     }
     // the worker accepts again
